@@ -92,6 +92,12 @@ F.append(dict(id='F25b', property='C16', status='open', clause_kind='excel_cells
               text='Excel export: a zero-length assignment is written as one cell, like a unit-length one, and may overwrite (or be overwritten by) '
                    'another assignment of the same row [F25]'))
 
+F.append(dict(id='F41', property='C16', status='open', clause_kind='excel_overlapping_range',
+              witness=dict(program_pretty=['CumulativeWorker C1 (size 3)', 'two tasks of length > 1 requiring C1, scheduled at overlapping times', 'solution.to_excel_file(f)'],
+                           observed="xlsxwriter.exceptions.OverlappingRange: Merge range 'J4:M4' overlaps previous merge range 'H4:L4'"),
+              text='Excel export fails (OverlappingRange) for a valid solution in which a cumulative worker processes two tasks at overlapping times: '
+                   'both bars are merged ranges of the same row [F41]'))
+
 F.append(dict(id='F22', property='C13', status='open', clause_kind='reinit-multiobjective',
               witness=dict(case='corpus/C13/F22.json'),
               text="initialize() a second time (or a second SchedulingSolver) on a problem with two objectives raises ValueError: build_equivalent_weighted_objective registers 'EquivalentIndicator' / 'MinimizeEquivalentObjective' in the problem itself [F22]"))
